@@ -94,6 +94,22 @@ CHECKS = {
         note=TB + "C20: the matrix Kalman recursion and the RTS smoother are NOT proved (partial): they are tied by the numpy float64 dense-Gaussian oracle only; log/exp and float32 rounding are compared with tolerances.",
         technique="Lean 4 + Mathlib proof (HMM full, Kalman scalar) + differential correspondence with brute-force / dense-Gaussian oracles",
         design="§3 C20"),
+    "C06": dict(
+        text="Partial. Lean: the key each site receives is a function of program position and root key only, lies strictly below the root key, "
+             "and distinct positions get distinct keys (free algebra of split/fold_in). The purity claim itself lives in the runtime and is "
+             "carried by the correspondence: generated seeded programs run fresh / after unseeded sampling / after other seeded programs / "
+             "under jit / vmap over keys / jit(vmap), each compared bit-for-bit with the model's key paths evaluated by jax.random.",
+        note=TB + "C06 (partial): absence of other hidden state in JAX/XLA/TFP cannot be exhibited by the model; 'distinct keys give distinct draws' rests on threefry.",
+        technique="Lean 4 proof of the key-path model + differential correspondence over call histories and transformations",
+        design="§3 C06"),
+    "C07": dict(
+        text="Partial. Lean theorem for every program shape (sequences, nested scans, cond in scan, scan in cond, any lengths): the keys handed "
+             "to the sample sites of one seeded run are pairwise distinct and none is derived from another. Tie: keys observed through a "
+             "key-revealing probe sampler = the model's key paths; real-distribution programs with equal parameters never return equal "
+             "values; correlation/marginal tests over key batches.",
+        note=TB + "C07 (partial): statistical independence of distinct threefry keys and per-site distributional correctness are the PRNG/TFP contract (trusted, calibrated tests only).",
+        technique="Lean 4 proof (prefix-freeness invariant of the threaded key) + differential correspondence",
+        design="§3 C07"),
 }
 
 NOT_YET = "check not built yet in this session (planned, see DESIGN.md §3/§6); not claimed"
